@@ -34,6 +34,29 @@ type c04Obj struct {
 	is *fpgo.StreamForInterfaceDef
 	im *fpgo.SetForInterfaceDef // kinds 'm' and 'u'
 	it *fpgo.StreamSetForInterfaceDef
+	// the map the caller passed to StreamSetFromMap (an ARGUMENT: the stream set must hold a copy) and what it
+	// held at that moment; the harness never writes it, so any difference was made by the library
+	argMap, argSnap map[int]*fpgo.StreamDef[int]
+}
+
+// names of the stream sets whose constructor argument map no longer holds what the caller put there
+func (st *c04State) disturbedArgs() string {
+	out := ""
+	for _, o := range st.objs {
+		if o.argMap == nil {
+			continue
+		}
+		same := len(o.argMap) == len(o.argSnap)
+		for k, v := range o.argSnap {
+			if w, ok := o.argMap[k]; !ok || w != v {
+				same = false
+			}
+		}
+		if !same {
+			out += "!arg-disturbed:" + o.name
+		}
+	}
+	return out
 }
 
 type c04State struct {
@@ -627,7 +650,11 @@ func (st *c04State) create(dst, name string, args []string) string {
 				m[p.k] = objs[i].gs
 			}
 		}
-		return st.add(&c04Obj{name: dst, kind: 't', gt: fpgo.StreamSetFromMap(m)})
+		snap := make(map[int]*fpgo.StreamDef[int], len(m))
+		for k, v := range m {
+			snap[k] = v
+		}
+		return st.add(&c04Obj{name: dst, kind: 't', gt: fpgo.StreamSetFromMap(m), argMap: m, argSnap: snap})
 	case name == "tget" && n == 2:
 		k, err := strconv.Atoi(args[1])
 		if err != nil {
@@ -1196,7 +1223,7 @@ func c04Run(line string) string {
 			continue
 		}
 		o := st.runOp(t)
-		outs = append(outs, o+" "+st.dump())
+		outs = append(outs, o+st.disturbedArgs()+" "+st.dump())
 	}
 	return strings.Join(outs, " | ")
 }
